@@ -365,6 +365,62 @@ func C13(c *Ctx) {
 			c.Distinct(fmt.Sprintf("%x%v", j.text, j.flags))
 		}
 	})
+	// a destination that opens but cannot take the bytes (/dev/full: every write fails with ENOSPC, the
+	// close succeeds): pigeon wrote no parser, so it must say so and exit non-zero
+	if fi, err := os.Stat("/dev/full"); err == nil && fi.Mode()&os.ModeCharDevice != 0 {
+		nfull := 0
+		for _, b := range bases {
+			if nfull >= c.N(6, 40) {
+				break
+			}
+			gf := filepath.Join(scratch, fmt.Sprintf("full%d.peg", nfull))
+			os.WriteFile(gf, []byte(b), 0o644)
+			if r0 := c.W.Gen(b); r0.Exit != 0 {
+				continue
+			}
+			for v, fl := range [][]string{{}, {"-optimize-parser"}, {"-optimize-grammar", "-nolint"}} {
+				for _, viaO := range []bool{true, false} {
+					args := append([]string{}, fl...)
+					if viaO {
+						args = append(args, "-o", "/dev/full")
+					}
+					args = append(args, gf)
+					ctx, cancel := context.WithTimeout(context.Background(), 75*time.Second)
+					cmd := exec.CommandContext(ctx, c.W.Pigeon, args...)
+					var se bytes.Buffer
+					cmd.Stderr = &se
+					cmd.Dir = scratch
+					cmd.Env = c.W.Env()
+					var full *os.File
+					if !viaO {
+						full, _ = os.OpenFile("/dev/full", os.O_WRONLY, 0)
+						cmd.Stdout = full
+					}
+					cmd.Run()
+					cancel()
+					if full != nil {
+						full.Close()
+					}
+					c.Eval(1)
+					c.CovAdd("runs_with_an_output_that_cannot_be_written", 1)
+					exit := -1
+					if cmd.ProcessState != nil {
+						exit = cmd.ProcessState.ExitCode()
+					}
+					if exit == 0 {
+						c.Report(&Violation{Class: "C13/unwritten-output-exit-0", Summary: fmt.Sprintf("pigeon exits 0 although not a byte of the parser could be written (output %s is /dev/full, every write fails with ENOSPC); flags %v; stderr %q; text %q", map[bool]string{true: "-o", false: "stdout"}[viaO], fl, trunc(se.String()), truncBytes([]byte(b), 300)),
+							Grammar: b, Flags: args[:len(args)-1], Input: []byte(b)})
+					} else if c13Panic.MatchString(se.String()) || strings.TrimSpace(se.String()) == "" {
+						c.Report(&Violation{Class: "C13/unwritten-output-diagnostic", Summary: fmt.Sprintf("output to /dev/full: exit %d with %q instead of a diagnostic naming the cause; flags %v", exit, trunc(se.String()), fl), Grammar: b, Flags: args[:len(args)-1], Input: []byte(b)})
+					}
+					_ = v
+				}
+			}
+			nfull++
+		}
+	} else {
+		c.CovAdd("dev_full_not_available", 1)
+	}
 	c.Cov("runs", len(jobs))
 	c.Sample(map[string]any{"text": fmt.Sprintf("%q", truncBytes(jobs[len(jobs)/3].text, 300)), "flags": jobs[len(jobs)/3].flags, "kind": jobs[len(jobs)/3].kind})
 	c.Sample(map[string]any{"text": fmt.Sprintf("%q", truncBytes(jobs[len(jobs)-1].text, 300)), "flags": jobs[len(jobs)-1].flags, "kind": jobs[len(jobs)-1].kind})
